@@ -11,7 +11,7 @@ use crate::gen::{secs, ParamSpec, Site, Times, WeatherSpec, PRAYERS};
 ///   * the parameters / the location pass through the library's own JSON form first (what the CLI's `-p`/`-i` files do),
 ///   * the result passes through its JSON form and back (what the CLI's `-o` file does),
 ///   * the date is asked for through the range API - as the middle day of a three-day range, or as the last day of a
-///     range that starts up to 20 days earlier (only without explicit weather: the range API takes none).
+///     range that starts up to 7 days earlier (only without explicit weather: the range API takes none).
 /// The caller's oracle then judges whatever came back. On a tree where the routes agree this changes nothing.
 pub fn compute(site: &Site, spec: &ParamSpec, date: NaiveDate, weather: Option<WeatherSpec>) -> Times {
     let r = routed(site, spec, date, weather);
@@ -38,7 +38,7 @@ fn routed(site: &Site, spec: &ParamSpec, date: NaiveDate, weather: Option<Weathe
             loc = serde_json::from_str::<Location>(&j).expect("the library's own Location JSON parses back");
         }
         3 | 4 if weather.is_none() => {
-            let back = if route == 3 { 1 } else { 2 + ((h >> 8) % 19) as i64 };
+            let back = if route == 3 { 1 } else { 2 + ((h >> 8) % 6) as i64 };
             let fwd = if route == 3 { 1 } else { 0 };
             if let (Some(a), Some(b)) = (date.checked_sub_signed(chrono::Duration::days(back)), date.checked_add_signed(chrono::Duration::days(fwd))) {
                 ROUTES.with(|c| c.borrow_mut()[route as usize] += 1);
